@@ -238,7 +238,10 @@ def tty_case(case):
 
 def replay(case):
     if "acct" in case:
-        why, _ = accounting(case)
+        try:
+            why, _ = common.with_timeout(accounting, 120, case)
+        except common.Hang:
+            why = "[hang] real runs did not return"
     elif "tty" in case:
         why, _ = tty_case(case)
     elif "sched" in case:
@@ -262,7 +265,9 @@ def run(ctx):
             out.case(c, True)
             out.hist["acct:" + kind] += 1
             try:
-                why, info = accounting(c)
+                why, info = common.with_timeout(accounting, 120, c)
+            except common.Hang:
+                why, info = "[hang] real runs of class %s pty=%s did not return" % (kind, pty), {"hang": True}
             except OSError as e:
                 out.hist["real_skipped:" + type(e).__name__] += 1
                 continue
